@@ -73,21 +73,23 @@ theorem findIdx_none {p : Sub → Bool} {l : List Sub} (h : findIdx p l = none) 
 /-- per-subscription facts -/
 structure SubOk (s : Sub) : Prop where
   table : s.inTable = true ↔
-    (s.phase = .accepted ∧ s.unsubscribed = false ∧ s.clones > 0 ∧ s.orphaned = false)
+    (s.phase = .accepted ∧ s.unsubscribed = false ∧ s.clones > 0 ∧ s.orphaned = false ∧ s.displaced = false)
   clonesAcc : s.clones > 0 → s.phase = .accepted
   unsubAcc : s.unsubscribed = true → s.phase = .accepted
   closeAcc : s.closeSent = true → s.phase = .accepted
   orphAcc : s.orphaned = true → s.phase = .accepted
   closeTask : s.closeSent = true → s.taskDone = true
   closeHandler : s.closeSent = true → s.handlerDone = true
+  displAcc : s.displaced = true → s.phase = .accepted
 
 /-- subscriptions of connection `c` that hold one of its permits -/
 def held (st : State) (c : Nat) : Nat := st.subs.countP (fun s => s.conn == c && s.holds)
 
 structure Inv (st : State) : Prop where
   connOk : ∀ s ∈ st.subs, s.conn < st.conns.length
-  idLt : ∀ s ∈ st.subs, s.subId < st.nextId
-  idUniq : ∀ (i j : Nat) (si sj : Sub), st.subs[i]? = some si → st.subs[j]? = some sj → si.subId = sj.subId → i = j
+  /-- the subscriber table is a map: at most one record owns the entry under a key -/
+  tableUniq : ∀ (i j : Nat) (si sj : Sub), st.subs[i]? = some si → st.subs[j]? = some sj →
+    si.inTable = true → sj.inTable = true → sameKey si.conn si.meth si.subId sj = true → i = j
   subOk : ∀ s ∈ st.subs, SubOk s
   permit : ∀ c cn, st.conns[c]? = some cn → cn.permitsFree + held st c = cn.cap
 
@@ -101,7 +103,7 @@ theorem lookup_some {st : State} {k : Nat} {s : Sub} {cn : Conn} (h : lookup st 
     · simp at h; obtain ⟨h1, h2⟩ := h; subst h1; subst h2; exact ⟨by assumption, by assumption⟩
 
 theorem inv_init (cfg : List (Nat × Nat)) : Inv (init cfg) := by
-  refine ⟨by simp [init], by simp [init], by simp [init], by simp [init], ?_⟩
+  refine ⟨by simp [init], by simp [init], by simp [init], ?_⟩
   intro c cn h
   simp [init, List.getElem?_map] at h
   obtain ⟨a, b, _, rfl⟩ := h
@@ -111,31 +113,44 @@ theorem inv_init (cfg : List (Nat × Nat)) : Inv (init cfg) := by
 local conditions hold -/
 theorem inv_put {st : State} (h : Inv st) {k : Nat} {s s' : Sub} {cn cn' : Conn}
     (hl : lookup st k = some (s, cn))
-    (hconn : s'.conn = s.conn) (hid : s'.subId = s.subId) (hok : SubOk s')
+    (hconn : s'.conn = s.conn) (hmeth : s'.meth = s.meth) (hid : s'.subId = s.subId)
+    (htab : s'.inTable = true → s.inTable = true ∨
+      ∀ j t, j ≠ k → st.subs[j]? = some t → t.inTable = true → sameKey s.conn s.meth s.subId t = false)
+    (hok : SubOk s')
     (hcap : cn'.cap = cn.cap)
     (hperm : cn'.permitsFree + (if s'.holds then 1 else 0) = cn.permitsFree + (if s.holds then 1 else 0)) :
     Inv (put st k s' cn') := by
   obtain ⟨hs, hc⟩ := lookup_some hl
   have hmem : s ∈ st.subs := List.mem_iff_getElem?.mpr ⟨k, hs⟩
-  refine ⟨?_, ?_, ?_, ?_, ?_⟩
+  have key_symm : ∀ a b : Sub, sameKey a.conn a.meth a.subId b = true → sameKey b.conn b.meth b.subId a = true := by
+    intro a b hab
+    simp only [sameKey, Bool.and_eq_true, beq_iff_eq] at hab ⊢
+    omega
+  refine ⟨?_, ?_, ?_, ?_⟩
   · intro x hx
     simp only [put, List.length_set] at hx ⊢
     rcases List.mem_or_eq_of_mem_set hx with hx | rfl
     · exact h.connOk x hx
     · rw [hconn]; exact h.connOk s hmem
-  · intro x hx
-    simp only [put] at hx ⊢
-    rcases List.mem_or_eq_of_mem_set hx with hx | rfl
-    · exact h.idLt x hx
-    · rw [hid]; exact h.idLt s hmem
-  · intro i j si sj hi hj hij
+  · intro i j si sj hi hj ti tj hij
     simp only [put] at hi hj
     rcases getElem?_set_cases hi with ⟨e1, e2⟩ | ⟨hik, hi'⟩ <;>
       rcases getElem?_set_cases hj with ⟨e3, e4⟩ | ⟨hjk, hj'⟩
     · omega
-    · rw [e2, hid] at hij; rw [e1]; exact h.idUniq _ _ _ _ hs hj' hij
-    · rw [e4, hid] at hij; rw [e3]; exact h.idUniq _ _ _ _ hi' hs hij
-    · exact h.idUniq _ _ _ _ hi' hj' hij
+    · -- i = k (new record), j old
+      rw [e2] at ti hij
+      rw [hconn, hmeth, hid] at hij
+      rcases htab ti with hold | hnone
+      · rw [e1]; exact h.tableUniq _ _ _ _ hs hj' hold tj hij
+      · rw [hnone j sj hjk hj' tj] at hij; cases hij
+    · rw [e4] at tj hij
+      have hij' : sameKey s.conn s.meth s.subId si = true := by
+        have := key_symm si s' hij
+        rwa [hconn, hmeth, hid] at this
+      rcases htab tj with hold | hnone
+      · rw [e3]; exact h.tableUniq _ _ _ _ hi' hs ti hold (key_symm s si hij')
+      · rw [hnone i si hik hi' ti] at hij'; cases hij'
+    · exact h.tableUniq _ _ _ _ hi' hj' ti tj hij
   · intro x hx
     simp only [put] at hx
     rcases List.mem_or_eq_of_mem_set hx with hx | rfl
@@ -168,7 +183,7 @@ theorem inv_put {st : State} (h : Inv st) {k : Nat} {s s' : Sub} {cn cn' : Conn}
 theorem inv_putConn {st : State} (h : Inv st) {c : Nat} {cn cn' : Conn}
     (hc : st.conns[c]? = some cn) (hcap : cn'.cap = cn.cap) (hperm : cn'.permitsFree = cn.permitsFree) :
     Inv (putConn st c cn') := by
-  refine ⟨?_, h.idLt, h.idUniq, h.subOk, ?_⟩
+  refine ⟨?_, h.tableUniq, h.subOk, ?_⟩
   · intro x hx
     simp only [putConn, List.length_set]
     exact h.connOk x hx
@@ -194,8 +209,8 @@ theorem lookup_mem {st : State} {k : Nat} {s : Sub} {cn : Conn} (h : lookup st k
 
 theorem SubOk.notAcc {s : Sub} (ok : SubOk s) (h : s.phase ≠ .accepted) :
     s.clones = 0 ∧ s.inTable = false ∧ s.unsubscribed = false ∧ s.closeSent = false ∧
-      s.orphaned = false := by
-  refine ⟨?_, ?_, ?_, ?_, ?_⟩
+      s.orphaned = false ∧ s.displaced = false := by
+  refine ⟨?_, ?_, ?_, ?_, ?_, ?_⟩
   · rcases Nat.eq_zero_or_pos s.clones with h0 | h0
     · exact h0
     · exact absurd (ok.clonesAcc h0) h
@@ -211,6 +226,72 @@ theorem SubOk.notAcc {s : Sub} (ok : SubOk s) (h : s.phase ≠ .accepted) :
   · cases hu : s.orphaned with
     | false => rfl
     | true => exact absurd (ok.orphAcc hu) h
+  · cases hu : s.displaced with
+    | false => rfl
+    | true => exact absurd (ok.displAcc hu) h
+
+theorem displace_key (c m x : Nat) (t : Sub) :
+    (displace c m x t).conn = t.conn ∧ (displace c m x t).meth = t.meth ∧ (displace c m x t).subId = t.subId ∧
+      (displace c m x t).holds = t.holds := by
+  unfold displace
+  split <;> simp [Sub.holds]
+
+theorem displace_inTable {c m x : Nat} {t : Sub} (h : (displace c m x t).inTable = true) :
+    displace c m x t = t ∧ t.inTable = true ∧ sameKey c m x t = false := by
+  unfold displace at h ⊢
+  split at h
+  · simp at h
+  · rename_i hn
+    refine ⟨by simp [hn], h, ?_⟩
+    cases hk : sameKey c m x t with
+    | false => rfl
+    | true => simp [hk, h] at hn
+
+/-- overwriting the entry under a key (what `insert` does to a previous owner) preserves the invariant -/
+theorem inv_displace {st : State} (h : Inv st) (c m x : Nat) :
+    Inv { st with subs := st.subs.map (displace c m x) } := by
+  refine ⟨?_, ?_, ?_, ?_⟩
+  · intro t ht
+    simp only [List.mem_map] at ht
+    obtain ⟨t0, ht0, rfl⟩ := ht
+    rw [(displace_key c m x t0).1]
+    exact h.connOk t0 ht0
+  · intro i j si sj hi hj ti tj hij
+    simp only [List.getElem?_map] at hi hj
+    cases hi0 : st.subs[i]? with
+    | none => simp [hi0] at hi
+    | some a =>
+      cases hj0 : st.subs[j]? with
+      | none => simp [hj0] at hj
+      | some b =>
+        simp [hi0] at hi; simp [hj0] at hj
+        subst hi; subst hj
+        obtain ⟨ea, ta, _⟩ := displace_inTable ti
+        obtain ⟨eb, tb, _⟩ := displace_inTable tj
+        rw [ea, eb] at hij
+        exact h.tableUniq i j a b hi0 hj0 ta tb hij
+  · intro t ht
+    simp only [List.mem_map] at ht
+    obtain ⟨t0, ht0, rfl⟩ := ht
+    have ok := h.subOk t0 ht0
+    unfold displace
+    split
+    · rename_i hd
+      have hin : t0.inTable = true := by simp at hd; exact hd.2
+      have hacc := (ok.table.mp hin).1
+      exact ⟨by simp, ok.clonesAcc, ok.unsubAcc, ok.closeAcc, ok.orphAcc, ok.closeTask, ok.closeHandler,
+        fun _ => hacc⟩
+    · exact ok
+  · intro c2 cn hc
+    have := h.permit c2 cn hc
+    simp only [held] at this ⊢
+    rw [List.countP_map]
+    have e : ((fun s => s.conn == c2 && s.holds) ∘ displace c m x) = (fun s => s.conn == c2 && s.holds) := by
+      funext t
+      simp only [Function.comp]
+      rw [(displace_key c m x t).1, (displace_key c m x t).2.2.2]
+    rw [e]
+    exact this
 
 theorem inv_accept {st : State} (h : Inv st) (k : Nat) : Inv (doAccept st k).1 := by
   unfold doAccept
@@ -218,19 +299,34 @@ theorem inv_accept {st : State} (h : Inv st) (k : Nat) : Inv (doAccept st k).1 :
   · exact h
   · rename_i s cn hl
     have ok := h.subOk s (lookup_mem hl)
+    obtain ⟨hs, hc⟩ := lookup_some hl
     split
     · exact h
     · rename_i hph
       have hph : s.phase = .pending := by simpa using hph
-      obtain ⟨f1, f2, f3, f4, f5⟩ := ok.notAcc (by simp [hph])
+      obtain ⟨f1, f2, f3, f4, f5, f6⟩ := ok.notAcc (by simp [hph])
       split
-      · refine inv_put h hl rfl rfl ?_ ?_ ?_
+      · refine inv_put h hl rfl rfl rfl (by intro hh; simp [f2] at hh) ?_ ?_ ?_
         · constructor <;> simp_all
         · rfl
         · simp [Conn.release, Sub.holds, hph, f1]
       · split
         · exact h
-        · refine inv_put h hl rfl rfl ?_ ?_ ?_
+        · have h1 := inv_displace h s.conn s.meth s.subId
+          have hself : displace s.conn s.meth s.subId s = s := by simp [displace, f2]
+          have hl1 : lookup { st with subs := st.subs.map (displace s.conn s.meth s.subId) } k = some (s, cn) := by
+            simp [lookup, List.getElem?_map, hs, hself, hc]
+          refine inv_put h1 hl1 rfl rfl rfl ?_ ?_ ?_ ?_
+          · intro _
+            right
+            intro j t _ hj tin
+            simp only [List.getElem?_map] at hj
+            cases hj0 : st.subs[j]? with
+            | none => simp [hj0] at hj
+            | some t0 =>
+              simp [hj0] at hj; subst hj
+              obtain ⟨e, _, hk⟩ := displace_inTable tin
+              rw [e]; exact hk
           · have := ok.table
             constructor <;> simp_all
           · rfl
@@ -247,10 +343,10 @@ theorem inv_refuse {st : State} (h : Inv st) (k : Nat) (code : Int) (ph : Phase)
     · exact h
     · rename_i hph
       have hph : s.phase = .pending := by simpa using hph
-      obtain ⟨f1, f2, f3, f4, f5⟩ := ok.notAcc (by simp [hph])
+      obtain ⟨f1, f2, f3, f4, f5, f6⟩ := ok.notAcc (by simp [hph])
       split
       · exact h
-      · refine inv_put h hl rfl rfl ?_ ?_ ?_
+      · refine inv_put h hl rfl rfl rfl (by intro hh; simp [f2] at hh) ?_ ?_ ?_
         · constructor <;> simp_all
         · split <;> rfl
         · have : (ph == Phase.pending) = false := by simpa using hpp
@@ -268,8 +364,8 @@ theorem inv_send {st : State} (h : Inv st) (k p : Nat) : Inv (doSend st k p).1 :
       · exact h
       · split
         · exact h
-        · refine inv_put h hl rfl rfl ?_ rfl ?_
-          · exact ⟨ok.table, ok.clonesAcc, ok.unsubAcc, ok.closeAcc, ok.orphAcc, ok.closeTask, ok.closeHandler⟩
+        · refine inv_put h hl rfl rfl rfl (fun hh => Or.inl hh) ?_ rfl ?_
+          · exact ⟨ok.table, ok.clonesAcc, ok.unsubAcc, ok.closeAcc, ok.orphAcc, ok.closeTask, ok.closeHandler, ok.displAcc⟩
           · simp [Conn.push, Sub.holds]
 
 theorem inv_clone {st : State} (h : Inv st) (k : Nat) : Inv (doClone st k).1 := by
@@ -284,10 +380,10 @@ theorem inv_clone {st : State} (h : Inv st) (k : Nat) : Inv (doClone st k).1 := 
       have hc : s.clones > 0 := by
         have : ¬ s.clones = 0 := by simpa using hc
         omega
-      refine inv_put h hl rfl rfl ?_ rfl ?_
+      refine inv_put h hl rfl rfl rfl (fun hh => Or.inl hh) ?_ rfl ?_
       · have := ok.table
         have := ok.clonesAcc hc
-        refine ⟨?_, fun _ => this, ok.unsubAcc, ok.closeAcc, ok.orphAcc, ok.closeTask, ok.closeHandler⟩
+        refine ⟨?_, fun _ => this, ok.unsubAcc, ok.closeAcc, ok.orphAcc, ok.closeTask, ok.closeHandler, ok.displAcc⟩
         simp_all
       · have : s.clones + 1 > 0 := by omega
         simp [Sub.holds, hc, this]
@@ -309,9 +405,9 @@ theorem inv_dropSink {st : State} (h : Inv st) (k : Nat) : Inv (doDropSink st k)
         have : ¬ s.clones = 0 := by simpa using hc
         omega
       have hacc := ok.clonesAcc hc
-      refine inv_put h hl rfl rfl ?_ ?_ ?_
+      refine inv_put h hl rfl rfl rfl (fun hh => Or.inl (by revert hh; cases s.inTable <;> simp)) ?_ ?_ ?_
       · have ht := ok.table
-        refine ⟨?_, fun _ => hacc, ok.unsubAcc, ok.closeAcc, fun _ => hacc, ok.closeTask, ok.closeHandler⟩
+        refine ⟨?_, fun _ => hacc, ok.unsubAcc, ok.closeAcc, fun _ => hacc, ok.closeTask, ok.closeHandler, ok.displAcc⟩
         simp only []
         cases hi : s.inTable <;> cases hr : dropSinkRemovesEntry s.clones <;> simp_all
         · have : s.clones ≠ 1 := fun e => by rw [e, dropSink_last] at hr; cases hr
@@ -335,8 +431,8 @@ theorem inv_return {st : State} (h : Inv st) (k : Nat) (r : Ret) : Inv (doReturn
     have ok := h.subOk s (lookup_mem hl)
     split
     · exact h
-    · refine inv_put h hl rfl rfl ?_ rfl ?_
-      · exact ⟨ok.table, ok.clonesAcc, ok.unsubAcc, ok.closeAcc, ok.orphAcc, ok.closeTask, fun _ => rfl⟩
+    · refine inv_put h hl rfl rfl rfl (fun hh => Or.inl hh) ?_ rfl ?_
+      · exact ⟨ok.table, ok.clonesAcc, ok.unsubAcc, ok.closeAcc, ok.orphAcc, ok.closeTask, fun _ => rfl, ok.displAcc⟩
       · simp [Sub.holds]
 
 theorem inv_task {st : State} (h : Inv st) (k : Nat) : Inv (doTask st k).1 := by
@@ -353,17 +449,17 @@ theorem inv_task {st : State} (h : Inv st) (k : Nat) : Inv (doTask st k).1 := by
       have hdone : s.handlerDone = true := by
         simp at hg; exact hg.1.2
       split
-      · refine inv_put h hl rfl rfl ?_ rfl ?_
-        · exact ⟨ok.table, ok.clonesAcc, ok.unsubAcc, ok.closeAcc, ok.orphAcc, fun _ => rfl, fun _ => hdone⟩
+      · refine inv_put h hl rfl rfl rfl (fun hh => Or.inl hh) ?_ rfl ?_
+        · exact ⟨ok.table, ok.clonesAcc, ok.unsubAcc, ok.closeAcc, ok.orphAcc, fun _ => rfl, fun _ => hdone, ok.displAcc⟩
         · simp [Sub.holds]
       · split
-        · refine inv_put h hl rfl rfl ?_ rfl ?_
-          · exact ⟨ok.table, ok.clonesAcc, ok.unsubAcc, ok.closeAcc, ok.orphAcc, fun _ => rfl, fun _ => hdone⟩
+        · refine inv_put h hl rfl rfl rfl (fun hh => Or.inl hh) ?_ rfl ?_
+          · exact ⟨ok.table, ok.clonesAcc, ok.unsubAcc, ok.closeAcc, ok.orphAcc, fun _ => rfl, fun _ => hdone, ok.displAcc⟩
           · simp [Sub.holds]
         · split
           · exact h
-          · refine inv_put h hl rfl rfl ?_ rfl ?_
-            · exact ⟨ok.table, ok.clonesAcc, ok.unsubAcc, fun _ => hacc, ok.orphAcc, fun _ => rfl, fun _ => hdone⟩
+          · refine inv_put h hl rfl rfl rfl (fun hh => Or.inl hh) ?_ rfl ?_
+            · exact ⟨ok.table, ok.clonesAcc, ok.unsubAcc, fun _ => hacc, ok.orphAcc, fun _ => rfl, fun _ => hdone, ok.displAcc⟩
             · simp [Sub.holds, Conn.push]
 
 theorem inv_connClose {st : State} (h : Inv st) (c : Nat) : Inv (doConnClose st c).1 := by
@@ -394,7 +490,7 @@ theorem inv_writer {st : State} (h : Inv st) (c : Nat) : Inv (doWriter st c).1 :
       · exact inv_putConn h hc rfl rfl
 
 theorem inv_stop {st : State} (h : Inv st) : Inv (doStop st).1 := by
-  refine ⟨?_, h.idLt, h.idUniq, h.subOk, ?_⟩
+  refine ⟨?_, h.tableUniq, h.subOk, ?_⟩
   · intro x hx
     simp only [doStop, List.length_map]
     exact h.connOk x hx
@@ -408,7 +504,7 @@ theorem inv_stop {st : State} (h : Inv st) : Inv (doStop st).1 := by
       have := h.permit c cn0 hcc
       simpa [held, doStop] using this
 
-theorem inv_subscribe {st : State} (h : Inv st) (c m rid : Nat) : Inv (doSubscribe st c m rid).1 := by
+theorem inv_subscribe {st : State} (h : Inv st) (c m rid sid : Nat) : Inv (doSubscribe st c m rid sid).1 := by
   unfold doSubscribe
   split
   · exact h
@@ -423,44 +519,24 @@ theorem inv_subscribe {st : State} (h : Inv st) (c m rid : Nat) : Inv (doSubscri
         · exact h
       · rename_i hpf
         have hpf : cn.permitsFree ≠ 0 := by simpa using hpf
-        refine ⟨?_, ?_, ?_, ?_, ?_⟩
+        have newrec : ∀ (i : Nat) (t : Sub),
+            (st.subs ++ [({ conn := c, meth := m, subId := sid, reqId := rid } : Sub)])[i]? = some t →
+            t.inTable = true → st.subs[i]? = some t := by
+          intro i t hi ti
+          rw [List.getElem?_append] at hi
+          split at hi
+          · exact hi
+          · cases hii : i - st.subs.length with
+            | zero => simp [hii] at hi; subst hi; simp at ti
+            | succ n => simp [hii] at hi
+        refine ⟨?_, ?_, ?_, ?_⟩
         · intro x hx
           simp only [List.mem_append, List.mem_singleton, List.length_set] at hx ⊢
           rcases hx with hx | rfl
           · exact h.connOk x hx
           · exact hlen
-        · intro x hx
-          simp only [List.mem_append, List.mem_singleton] at hx ⊢
-          rcases hx with hx | rfl
-          · have := h.idLt x hx; omega
-          · simp
-        · intro i j si sj hi hj hij
-          simp only [List.getElem?_append] at hi hj
-          split at hi <;> split at hj
-          · exact h.idUniq _ _ _ _ hi hj hij
-          · have hm : si ∈ st.subs := List.mem_iff_getElem?.mpr ⟨i, hi⟩
-            have := h.idLt si hm
-            have hj' : sj.subId = st.nextId := by
-              cases hjj : j - st.subs.length with
-              | zero => simp [hjj] at hj; subst hj; rfl
-              | succ n => simp [hjj] at hj
-            omega
-          · have hm : sj ∈ st.subs := List.mem_iff_getElem?.mpr ⟨j, hj⟩
-            have := h.idLt sj hm
-            have hi' : si.subId = st.nextId := by
-              cases hii : i - st.subs.length with
-              | zero => simp [hii] at hi; subst hi; rfl
-              | succ n => simp [hii] at hi
-            omega
-          · have : i - st.subs.length = 0 := by
-              cases hii : i - st.subs.length with
-              | zero => rfl
-              | succ n => simp [hii] at hi
-            have : j - st.subs.length = 0 := by
-              cases hjj : j - st.subs.length with
-              | zero => rfl
-              | succ n => simp [hjj] at hj
-            omega
+        · intro i j si sj hi hj ti tj hij
+          exact h.tableUniq i j si sj (newrec i si hi ti) (newrec j sj hj tj) ti tj hij
         · intro x hx
           simp only [List.mem_append, List.mem_singleton] at hx
           rcases hx with hx | rfl
@@ -497,21 +573,21 @@ theorem inv_unsubscribe {st : State} (h : Inv st) (c m x rid : Nat) :
         · exact inv_putConn h hc rfl rfl
         · rename_i k hf
           obtain ⟨s, hs, hp⟩ := findIdx_some hf
-          simp only [tableKey, Bool.and_eq_true, beq_iff_eq] at hp
+          simp only [tableKey, sameKey, Bool.and_eq_true, beq_iff_eq] at hp
           obtain ⟨⟨⟨hsc, _⟩, _⟩, hit⟩ := hp
           rw [hs]
           have hl : lookup st k = some (s, cn) := by
             simp [lookup, hs, hsc, hc]
           have ok := h.subOk s (lookup_mem hl)
           have hacc := (ok.table.mp hit).1
-          refine inv_put h hl rfl rfl ?_ rfl ?_
-          · refine ⟨?_, ok.clonesAcc, fun _ => hacc, ok.closeAcc, ok.orphAcc, ok.closeTask, ok.closeHandler⟩
+          refine inv_put h hl rfl rfl rfl (by intro hh; simp at hh) ?_ rfl ?_
+          · refine ⟨?_, ok.clonesAcc, fun _ => hacc, ok.closeAcc, ok.orphAcc, ok.closeTask, ok.closeHandler, ok.displAcc⟩
             simp
           · simp [Sub.holds, Conn.push]
 
 theorem inv_step {st : State} (h : Inv st) (op : Op) : Inv (step st op).1 := by
   cases op with
-  | subscribe c m rid => exact inv_subscribe h c m rid
+  | subscribe c m rid sid => exact inv_subscribe h c m rid sid
   | accept k => exact inv_accept h k
   | reject k code => exact inv_refuse h k code .rejected (by decide) (by decide)
   | dropPending k => exact inv_refuse h k internalCode .dropped (by decide) (by decide)
@@ -552,6 +628,313 @@ theorem reachable_step {st : State} (h : Reachable st) (op : Op) : Reachable (st
     | nil => rfl
     | cons o r ih => exact ih _
   exact (this _ _).symm
+
+/-! ### id providers that only hand out free ids -/
+
+/-- a record is live while its subscribe call is pending or it owns a table entry -/
+def Sub.live (s : Sub) : Bool := s.phase == .pending || s.inTable
+
+/-- The id handed out for a subscribe call is FREE on that connection and method: no pending call and
+no registered subscription uses it there.  (A counter or random provider satisfies this trivially;
+a provider may legitimately re-use an id once its subscription has been unsubscribed or has ended,
+and the same id may be in use on another connection.) -/
+def idFree (st : State) : Op → Prop
+  | .subscribe c m _ sid => ∀ s ∈ st.subs, sameKey c m sid s = true → s.live = false
+  | _ => True
+
+def DisciplinedRun (st : State) : List Op → Prop
+  | [] => True
+  | op :: r => idFree st op ∧ DisciplinedRun (step st op).1 r
+
+instance (st : State) (op : Op) : Decidable (idFree st op) := by
+  cases op <;> simp only [idFree] <;> infer_instance
+
+def decDisciplined : (st : State) → (ops : List Op) → Decidable (DisciplinedRun st ops)
+  | _, [] => isTrue trivial
+  | st, op :: r =>
+    have := decDisciplined (step st op).1 r
+    by simp only [DisciplinedRun]; infer_instance
+
+instance (st : State) (ops : List Op) : Decidable (DisciplinedRun st ops) := decDisciplined st ops
+
+/-- reachable with an id provider that only hands out free ids -/
+def ReachableD (st : State) : Prop := ∃ cfg ops, st = run (init cfg) ops ∧ DisciplinedRun (init cfg) ops
+
+/-- what such runs maintain: live records have pairwise different keys, nothing was ever displaced -/
+structure Clean (st : State) : Prop where
+  liveUniq : ∀ (i j : Nat) (si sj : Sub), st.subs[i]? = some si → st.subs[j]? = some sj →
+    si.live = true → sj.live = true → sameKey si.conn si.meth si.subId sj = true → i = j
+  noDispl : ∀ s ∈ st.subs, s.displaced = false
+
+theorem clean_put {st : State} (h : Clean st) {k : Nat} {s s' : Sub} {cn cn' : Conn}
+    (hl : lookup st k = some (s, cn))
+    (hconn : s'.conn = s.conn) (hmeth : s'.meth = s.meth) (hid : s'.subId = s.subId)
+    (hlive : s'.live = true → s.live = true) (hd : s'.displaced = false) : Clean (put st k s' cn') := by
+  obtain ⟨hs, _⟩ := lookup_some hl
+  have key_symm : ∀ a b : Sub, sameKey a.conn a.meth a.subId b = true → sameKey b.conn b.meth b.subId a = true := by
+    intro a b hab
+    simp only [sameKey, Bool.and_eq_true, beq_iff_eq] at hab ⊢
+    omega
+  refine ⟨?_, ?_⟩
+  · intro i j si sj hi hj li lj hij
+    simp only [put] at hi hj
+    rcases getElem?_set_cases hi with ⟨e1, e2⟩ | ⟨hik, hi'⟩ <;>
+      rcases getElem?_set_cases hj with ⟨e3, e4⟩ | ⟨hjk, hj'⟩
+    · omega
+    · rw [e2] at li hij
+      rw [hconn, hmeth, hid] at hij
+      rw [e1]; exact h.liveUniq _ _ _ _ hs hj' (hlive li) lj hij
+    · rw [e4] at lj hij
+      have hij' : sameKey s.conn s.meth s.subId si = true := by
+        have := key_symm si s' hij
+        rwa [hconn, hmeth, hid] at this
+      rw [e3]; exact h.liveUniq _ _ _ _ hi' hs li (hlive lj) (key_symm s si hij')
+    · exact h.liveUniq _ _ _ _ hi' hj' li lj hij
+  · intro x hx
+    simp only [put] at hx
+    rcases List.mem_or_eq_of_mem_set hx with hx | rfl
+    · exact h.noDispl x hx
+    · exact hd
+
+theorem clean_conns {st : State} (h : Clean st) (cs : List Conn) : Clean { st with conns := cs } :=
+  ⟨h.liveUniq, h.noDispl⟩
+
+/-- with live keys pairwise different an accept overwrites nobody -/
+theorem displace_id_of_clean {st : State} (h : Clean st) {k : Nat} {s : Sub} (hs : st.subs[k]? = some s)
+    (hp : s.phase = .pending) (hnt : s.inTable = false) :
+    st.subs.map (displace s.conn s.meth s.subId) = st.subs := by
+  have : ∀ t ∈ st.subs, displace s.conn s.meth s.subId t = t := by
+    intro t ht
+    unfold displace
+    split
+    · rename_i hd
+      exfalso
+      simp only [Bool.and_eq_true] at hd
+      obtain ⟨j, hj⟩ := List.mem_iff_getElem?.mp ht
+      have e := h.liveUniq k j s t hs hj (by simp [Sub.live, hp]) (by simp [Sub.live, hd.2]) hd.1
+      subst e
+      rw [hs] at hj; cases hj
+      rw [hnt] at hd; exact absurd hd.2 (by simp)
+    · rfl
+  rw [List.map_congr_left this]; simp
+
+theorem clean_step {st : State} (hi : Inv st) (h : Clean st) (op : Op) (hf : idFree st op) :
+    Clean (step st op).1 := by
+  cases op with
+  | subscribe c m rid sid =>
+    simp only [step, doSubscribe]
+    split
+    · exact h
+    · split
+      · exact h
+      · split
+        · split
+          · exact clean_conns h _
+          · exact h
+        · have old : ∀ (i : Nat) (t : Sub),
+              (st.subs ++ [({ conn := c, meth := m, subId := sid, reqId := rid } : Sub)])[i]? = some t →
+              st.subs[i]? = some t ∨ (i = st.subs.length ∧ t = { conn := c, meth := m, subId := sid, reqId := rid }) := by
+            intro i t hit
+            rw [List.getElem?_append] at hit
+            split at hit
+            · exact Or.inl hit
+            · cases hii : i - st.subs.length with
+              | zero => simp [hii] at hit; exact Or.inr ⟨by omega, hit.symm⟩
+              | succ n => simp [hii] at hit
+          refine ⟨?_, ?_⟩
+          · intro i j si sj hi' hj' li lj hij
+            rcases old i si hi' with hi0 | ⟨ei, rfl⟩ <;> rcases old j sj hj' with hj0 | ⟨ej, rfl⟩
+            · exact h.liveUniq i j si sj hi0 hj0 li lj hij
+            · exfalso
+              have hm : si ∈ st.subs := List.mem_iff_getElem?.mpr ⟨i, hi0⟩
+              have : sameKey c m sid si = true := by
+                simp only [sameKey, Bool.and_eq_true, beq_iff_eq] at hij ⊢; omega
+              rw [hf si hm this] at li; cases li
+            · exfalso
+              have hm : sj ∈ st.subs := List.mem_iff_getElem?.mpr ⟨j, hj0⟩
+              rw [hf sj hm hij] at lj; cases lj
+            · omega
+          · intro x hx
+            simp only [List.mem_append, List.mem_singleton] at hx
+            rcases hx with hx | rfl
+            · exact h.noDispl x hx
+            · rfl
+  | accept k =>
+    simp only [step, doAccept]
+    split
+    · exact h
+    · rename_i s cn hl
+      obtain ⟨hs, hc⟩ := lookup_some hl
+      have ok := hi.subOk s (lookup_mem hl)
+      split
+      · exact h
+      · rename_i hph
+        have hph : s.phase = .pending := by simpa using hph
+        obtain ⟨_, f2, _, _, _, f6⟩ := ok.notAcc (by simp [hph])
+        split
+        · exact clean_put h hl rfl rfl rfl (by simp [Sub.live, f2]) (by simpa using f6)
+        · split
+          · exact h
+          · rw [displace_id_of_clean h hs hph f2]
+            exact clean_put h hl rfl rfl rfl (by intro _; simp [Sub.live, hph]) (by simpa using f6)
+  | reject k code =>
+    simp only [step, doRefuse]
+    split
+    · exact h
+    · rename_i s cn hl
+      have ok := hi.subOk s (lookup_mem hl)
+      split
+      · exact h
+      · rename_i hph
+        have hph : s.phase = .pending := by simpa using hph
+        obtain ⟨_, f2, _, _, _, f6⟩ := ok.notAcc (by simp [hph])
+        split
+        · exact h
+        · exact clean_put h hl rfl rfl rfl (by intro _; simp [Sub.live, hph]) (by simpa using f6)
+  | dropPending k =>
+    simp only [step, doRefuse]
+    split
+    · exact h
+    · rename_i s cn hl
+      have ok := hi.subOk s (lookup_mem hl)
+      split
+      · exact h
+      · rename_i hph
+        have hph : s.phase = .pending := by simpa using hph
+        obtain ⟨_, f2, _, _, _, f6⟩ := ok.notAcc (by simp [hph])
+        split
+        · exact h
+        · exact clean_put h hl rfl rfl rfl (by intro _; simp [Sub.live, hph]) (by simpa using f6)
+  | send k p =>
+    simp only [step, doSend]
+    split
+    · exact h
+    · rename_i s cn hl
+      split
+      · exact h
+      · split
+        · exact h
+        · split
+          · exact h
+          · exact clean_put h hl rfl rfl rfl (by simp [Sub.live]) (by simpa using h.noDispl s (lookup_mem hl))
+  | cloneSink k =>
+    simp only [step, doClone]
+    split
+    · exact h
+    · rename_i s cn hl
+      split
+      · exact h
+      · exact clean_put h hl rfl rfl rfl (by simp [Sub.live]) (by simpa using h.noDispl s (lookup_mem hl))
+  | dropSink k =>
+    simp only [step, doDropSink]
+    split
+    · exact h
+    · rename_i s cn hl
+      split
+      · exact h
+      · refine clean_put h hl rfl rfl rfl ?_ (by simpa using h.noDispl s (lookup_mem hl))
+        simp only [Sub.live]
+        cases s.inTable <;> simp
+  | isClosed k =>
+    simp only [step, doIsClosed]
+    split
+    · exact h
+    · split <;> exact h
+  | handlerReturn k r =>
+    simp only [step, doReturn]
+    split
+    · exact h
+    · rename_i s cn hl
+      split
+      · exact h
+      · exact clean_put h hl rfl rfl rfl (by simp [Sub.live]) (by simpa using h.noDispl s (lookup_mem hl))
+  | taskStep k =>
+    simp only [step, doTask]
+    split
+    · exact h
+    · rename_i s cn hl
+      have hd := h.noDispl s (lookup_mem hl)
+      split
+      · exact h
+      · split
+        · exact clean_put h hl rfl rfl rfl (by simp [Sub.live]) (by simpa using hd)
+        · split
+          · exact clean_put h hl rfl rfl rfl (by simp [Sub.live]) (by simpa using hd)
+          · split
+            · exact h
+            · exact clean_put h hl rfl rfl rfl (by simp [Sub.live]) (by simpa using hd)
+  | unsubscribe c m x rid =>
+    simp only [step, doUnsubscribe]
+    split
+    · exact h
+    · rename_i cn hc
+      split
+      · exact h
+      · split
+        · exact h
+        · split
+          · exact clean_conns h _
+          · rename_i k hfi
+            obtain ⟨s, hs, hp⟩ := findIdx_some hfi
+            simp only [tableKey, sameKey, Bool.and_eq_true, beq_iff_eq] at hp
+            rw [hs]
+            have hl : lookup st k = some (s, cn) := by simp [lookup, hs, hp.1.1.1, hc]
+            exact clean_put h hl rfl rfl rfl (by simp [Sub.live, hp.2]) (by simpa using h.noDispl s (lookup_mem hl))
+  | connClose c =>
+    simp only [step, doConnClose]
+    split
+    · exact h
+    · exact clean_conns h _
+  | stop => exact clean_conns h _
+  | connFinish c =>
+    simp only [step, doConnFinish]
+    split
+    · exact h
+    · split
+      · exact clean_conns h _
+      · exact h
+  | writerStep c =>
+    simp only [step, doWriter]
+    split
+    · exact h
+    · split
+      · exact h
+      · split
+        · exact h
+        · exact clean_conns h _
+
+theorem clean_init (cfg : List (Nat × Nat)) : Clean (init cfg) := ⟨by simp [init], by simp [init]⟩
+
+theorem reachableD_reachable {st : State} (h : ReachableD st) : Reachable st := by
+  obtain ⟨cfg, ops, e, _⟩ := h; exact ⟨cfg, ops, e⟩
+
+theorem run_clean (ops : List Op) : ∀ (s : State), Inv s → Clean s → DisciplinedRun s ops → Clean (run s ops) := by
+  induction ops with
+  | nil => intro s _ hc _; exact hc
+  | cons op r ih =>
+    intro s hi hc hd
+    exact ih _ (inv_step hi op) (clean_step hi hc op hd.1) hd.2
+
+theorem reachableD_clean {st : State} (h : ReachableD st) : Clean st := by
+  obtain ⟨cfg, ops, rfl, hd⟩ := h
+  exact run_clean ops _ (inv_init cfg) (clean_init cfg) hd
+
+theorem reachableD_step {st : State} (h : ReachableD st) (op : Op) (hf : idFree st op) :
+    ReachableD (step st op).1 := by
+  obtain ⟨cfg, ops, rfl, hd⟩ := h
+  refine ⟨cfg, ops ++ [op], ?_, ?_⟩
+  · have : ∀ (s : State) (l : List Op), run s (l ++ [op]) = (step (run s l) op).1 := by
+      intro s l
+      induction l generalizing s with
+      | nil => rfl
+      | cons o r ih => exact ih _
+    exact (this _ _).symm
+  · have : ∀ (s : State) (l : List Op), DisciplinedRun s l → idFree (run s l) op → DisciplinedRun s (l ++ [op]) := by
+      intro s l
+      induction l generalizing s with
+      | nil => intro _ h2; exact ⟨h2, trivial⟩
+      | cons o r ih => intro h1 h2; exact ⟨h1.1, ih _ h1.2 h2⟩
+    exact this _ _ hd hf
 
 /-! ### shared vocabulary of the property theorems -/
 
